@@ -1645,7 +1645,7 @@ func memTypeMaskFromStringList(memTypes []string) (libmem.TypeMask, error) {
 // closestMems returns memory node IDs good for pinning containers
 // that run on given CPUs
 func (p *balloons) closestMems(cpus cpuset.CPUSet) idset.IDSet {
-	return idset.NewIDSet(p.memAllocator.CPUSetAffinity(cpus).Slice()...)
+	return idset.NewIDSet(p.memAllocator.CPUSetAffinity(cpus).And(p.memAllocator.Masks().NodesWithMem()).Slice()...)
 }
 
 // resizeBalloon changes the CPUs allocated for a balloon, if allowed.
